@@ -292,6 +292,31 @@ func c16(r *vlib.Run) int {
 	r.DistinctN(distinct)
 	r.Sample(map[string]interface{}{"message": "REMOTE|host1|100|42|file.log|ERROR text with spaces\r\n", "oracle": "strip(Colorfy(m)) == m"})
 
+	// concurrent painting: the same oracle while 12 goroutines paint at once
+	nConc := r.N(12, 200)
+	if nConc > len(cases) {
+		nConc = len(cases)
+	}
+	cres, ccrashes := r.RunBatches("c16conc", cases[:nConc], 4, 4, nil, nil)
+	for _, cr := range ccrashes {
+		r.Violation("colorfy-crash-when-painting-concurrently", map[string]interface{}{"batch_first_messages_hex": clipStrings(all[cr.Any()], 5),
+			"stderr": vlib.Trunc(string(cr.Result.Stderr), 2500)})
+	}
+	for _, raw := range cres {
+		if raw == nil {
+			continue
+		}
+		var res c16PureResult
+		json.Unmarshal(raw, &res)
+		r.Evals(res.N)
+		r.Count("messages_painted_while_other_goroutines_paint", res.N)
+		for k, h := range res.Mismatches {
+			var m string
+			fmt.Sscanf(h, "%x", &m)
+			r.Violation("colour-alters-text-when-painting-concurrently", map[string]interface{}{"message": fmt.Sprintf("%q", m), "message_hex": h, "coloured": res.Rendered[k]})
+		}
+	}
+
 	c16Handlers(r)
 	c16Tables(r)
 	c16E2E(r)
